@@ -31,18 +31,35 @@ Theorem C11_filterpipe_name_padding_tight : forall n, 65528 < n < 65536 ->
 Proof. exact padded_name_w_wraps. Qed.
 Print Assumptions C11_filterpipe_name_padding_tight.
 
+(* ... witnessed through the whole message: a 65529-byte name is written with its length and none of its
+   bytes (the Go encoder returns exactly these 16 bytes), and the reader refuses the message *)
+Theorem C11_filterpipe_name_65529_not_inverted :
+  blen (wf_name long_name_filter) = 65529 /\
+  wf_pipeline [long_name_filter] = false /\
+  enc_pipeline [long_name_filter] = [2; 1; 0; 0; 0; 0; 0; 0; 1; 0; 249; 255; 0; 0; 0; 0] /\
+  dec_pipeline (enc_pipeline [long_name_filter]) = Err.
+Proof. exact pipeline_name_65529_not_inverted. Qed.
+Print Assumptions C11_filterpipe_name_65529_not_inverted.
+
 (* the hypotheses are satisfiable: names of 0, 7, 8, 9 bytes, no and three client values, 3 and 4 filters *)
 Theorem C11_filterpipe_wf_example : wf_pipeline ex_filters = true /\ wf_pipeline (firstn 3 ex_filters) = true.
 Proof. exact ex_filters_wf. Qed.
 Print Assumptions C11_filterpipe_wf_example.
 
 (* the C08 transcription of EncodePipelineMessage (over filter descriptors) and the C11 one produce the same
-   refusal and the same bytes for every descriptor list *)
-Theorem C11_filterpipe_same_bytes_as_C08 : forall ds : list Filters.fdesc,
+   refusal and the same bytes for every descriptor list with names of at most 65528 bytes (name_fits);
+   every C08 well-formed descriptor (desc_wf: names below 65000 bytes) is of that kind *)
+Theorem C11_filterpipe_same_bytes_as_C08 : forall ds : list Filters.fdesc, Forall name_fits ds ->
   Filters.encode_msg ds =
   if encok_pipeline (map to_wfilter ds) then Filters.Ok (enc_pipeline (map to_wfilter ds)) else Filters.Err.
 Proof. exact enc_pipeline_same_as_c08. Qed.
 Print Assumptions C11_filterpipe_same_bytes_as_C08.
+
+Theorem C11_filterpipe_same_bytes_as_C08_wf : forall ds : list Filters.fdesc, Forall FiltersPipeline.desc_wf ds ->
+  Filters.encode_msg ds =
+  if encok_pipeline (map to_wfilter ds) then Filters.Ok (enc_pipeline (map to_wfilter ds)) else Filters.Err.
+Proof. exact enc_pipeline_same_as_c08_wf. Qed.
+Print Assumptions C11_filterpipe_same_bytes_as_C08_wf.
 
 (* C08's general message round trip, restated (statement of Proofs.FiltersPipeline.msg_roundtrip_wf) *)
 Theorem C11_filterpipe_roundtrip_c08 : forall ds : list Filters.fdesc,
